@@ -504,8 +504,8 @@ func init() {
 // ---- C02: a reader that started behind a waiting writer must not overtake it ----
 
 const (
-	cW2Ret = 20 + iota // the (uncancelled) writer's Lock returned
-	cLateParked        // the late reader observed the writer parked when it started
+	cW2Ret      = 20 + iota // the (uncancelled) writer's Lock returned
+	cLateParked             // the late reader observed the writer parked when it started
 )
 
 // lateReader: Lock(read) issued while a writer is parked; on acquire that writer must have returned.
